@@ -325,4 +325,80 @@ def OptWorld.view {ν : Type} (w : OptWorld ν) (i : Nat) : Option (Dict ν) :=
   | none => none
   | some id => w.dicts[id]?
 
+/-! ## 6. the `jit` option of (linear) operators: which callable each private slot holds, and how deeply wrapped -/
+
+/-- where the adjoint callable of a `LinearOperator` comes from -/
+inductive AdjSrc where
+  | given        -- the `adj_fn` constructor argument
+  | classMethod  -- `_adj` defined by the subclass (`hasattr(self, "_adj")` in `__init__`)
+  | derived      -- `_set_adjoint`: `linear_adjoint(self.__call__, zeros)`
+deriving DecidableEq, Repr
+
+/-- how the object is constructed -/
+inductive LinOpVariant where
+  | adjFn | classAdj | plain
+deriving DecidableEq, Repr
+
+/-- the three private slots.  A number is the nesting depth of `jax.jit` wrappers around the slot's callable;
+    `_gram`, when set, is always the late-binding lambda `x ↦ self.adj(self(x))`. -/
+structure LinOpState where
+  evalDepth : Nat
+  adj : Option (AdjSrc × Nat)
+  gram : Option Nat
+deriving DecidableEq, Repr
+
+/-- `_set_adjoint()` as it is called: only when `_adj is None` -/
+def LinOpState.needAdj (s : LinOpState) : LinOpState :=
+  match s.adj with
+  | none => { s with adj := some (.derived, 0) }
+  | some _ => s
+
+/-- `_set_gram()` as it is called: only when `_gram is None` -/
+def LinOpState.needGram (s : LinOpState) : LinOpState :=
+  match s.gram with
+  | none => { s with gram := some 0 }
+  | some _ => s
+
+/-- `LinearOperator.jit()` -/
+def LinOpState.jit (s : LinOpState) : LinOpState :=
+  let s := s.needAdj.needGram
+  { evalDepth := s.evalDepth + 1, adj := s.adj.map (fun a => (a.1, a.2 + 1)), gram := s.gram.map (· + 1) }
+
+/-- `LinearOperator.__init__(…, adj_fn, jit)` after `Operator.__init__(…, jit=False)` -/
+def LinOpState.init0 : LinOpVariant → LinOpState
+  | .adjFn => ⟨0, some (.given, 0), some 0⟩       -- `_adj = adj_fn; _gram = lambda x: self.adj(self(x))`
+  | .classAdj => ⟨0, some (.classMethod, 0), none⟩
+  | .plain => ⟨0, none, none⟩
+
+def LinOpState.init (v : LinOpVariant) (jit : Bool) : LinOpState :=
+  if jit then (LinOpState.init0 v).jit else LinOpState.init0 v
+
+inductive LinOpOp where
+  | jit        -- `A.jit()`
+  | call       -- `A(x)`
+  | adj        -- `A.adj(y)`      (creates the adjoint lazily)
+  | gram       -- `A.gram(x)`     (creates `_gram` lazily; evaluating it calls `A.adj`)
+  | gramOp     -- `A.gram_op`     (creates `_gram`, evaluates nothing)
+deriving DecidableEq, Repr
+
+def LinOpState.step (s : LinOpState) : LinOpOp → LinOpState
+  | .jit => s.jit
+  | .call => s
+  | .adj => s.needAdj
+  | .gram => s.needGram.needAdj
+  | .gramOp => s.needGram
+
+def LinOpState.run (s : LinOpState) : List LinOpOp → LinOpState
+  | [] => s
+  | o :: os => LinOpState.run (s.step o) os
+
+/-- Specification: the adjoint callable an object of this variant uses, whenever it has one -/
+def specAdjSrc : LinOpVariant → AdjSrc
+  | .adjFn => .given
+  | .classAdj => .classMethod
+  | .plain => .derived
+
+/-- number of `jit()` calls of a history (the constructor option counts as one) -/
+def jitCount (jit : Bool) (ops : List LinOpOp) : Nat := (if jit then 1 else 0) + (ops.filter (· == .jit)).length
+
 end Scico.Cache
